@@ -12,6 +12,7 @@ real OS scheduling can produce.
 """
 
 import asyncio
+import logging
 import collections
 import heapq
 import random
@@ -137,6 +138,8 @@ class Loop(asyncio.AbstractEventLoop):
         prev = sim.current
         sim.current = self.pid
         asyncio.events._set_running_loop(self)
+        if sim.no_log is not None:
+            logging.disable(logging.CRITICAL if sim.no_log[self.pid] else logging.NOTSET)
         try:
             for _ in range(n):
                 if not self._ready:
@@ -147,6 +150,8 @@ class Loop(asyncio.AbstractEventLoop):
         finally:
             asyncio.events._set_running_loop(None)
             sim.current = prev
+            if sim.no_log is not None:
+                logging.disable(logging.CRITICAL)
         return n
 
 
@@ -260,7 +265,7 @@ class Sim:
     MAX_STEPS = 2_000_000
 
     def __init__(self, m, t=None, prss=True, sec_param=30, no_barrier=False, seed=0,
-                 schedule=None, numpy=False, record=True, options=None, cli_threshold=None):
+                 schedule=None, numpy=False, record=True, options=None, cli_threshold=None, no_log=None):
         _ensure(numpy=numpy)
         self.m = m
         self.t = (m - 1) // 2 if t is None else t
@@ -298,6 +303,10 @@ class Sim:
         # cli_threshold: threshold given "on the command line" (options.threshold); when it differs from
         # t the program assigns mpc.threshold = t before start, as e.g. demos/parallelsort.py does
         self.cli_threshold = cli_threshold
+        # no_log: per-party list of booleans (option --no-log given or not); parties are separate processes in a
+        # deployment, each with its own logging configuration: the process-wide logging state is switched to the
+        # running party's configuration around every callback (records go to a NullHandler)
+        self.no_log = list(no_log) if no_log is not None else None
         self._install()
         self._make_runtimes(sec_param, no_barrier, options)
 
@@ -312,6 +321,11 @@ class Sim:
             runtimes=[(mod, mod.runtime) for mod in mods],
             mpc=rtm.mpc, rt_secrets=rtm.secrets, th_secrets=M['thresha'].secrets,
             pyrandom=random.getstate())
+        if self.no_log is not None:
+            root = logging.getLogger()
+            self._saved['logging'] = (root.level, root.handlers[:])
+            root.handlers[:] = [logging.NullHandler()]
+            root.setLevel(logging.INFO)
         for mod in mods:
             mod.runtime = self.proxy
         rtm.mpc = self.proxy
@@ -346,6 +360,11 @@ class Sim:
         rtm.secrets = self._saved['rt_secrets']
         M['thresha'].secrets = self._saved['th_secrets']
         random.setstate(self._saved['pyrandom'])
+        if 'logging' in self._saved:
+            root = logging.getLogger()
+            root.setLevel(self._saved['logging'][0])
+            root.handlers[:] = self._saved['logging'][1]
+            logging.disable(logging.CRITICAL)
         self._saved = None
         self._clear_caches()
         asyncio.events._set_running_loop(None)
@@ -369,7 +388,7 @@ class Sim:
                 opts.no_async = False
                 opts.no_barrier = no_barrier
                 opts.sec_param = sec_param
-                opts.no_log = True
+                opts.no_log = True if self.no_log is None else bool(self.no_log[i])
                 opts.mix32_64bit = False
                 for k, v in (options or {}).items():
                     setattr(opts, k, v)
@@ -425,11 +444,15 @@ class Sim:
         prev = self.current
         self.current = pid
         asyncio.events._set_running_loop(self.loops[pid])
+        if self.no_log is not None:
+            logging.disable(logging.CRITICAL if self.no_log[pid] else logging.NOTSET)
         try:
             return f(*args)
         finally:
             asyncio.events._set_running_loop(None)
             self.current = prev
+            if self.no_log is not None:
+                logging.disable(logging.CRITICAL)
 
     # ---------------------------------------------------------------- transport callbacks
     def _write(self, tr, data):
